@@ -81,6 +81,8 @@ def impl_decode(cls, data: bytes):
         obj = entity_reader(cls)(buf)
     except Exception as e:  # noqa
         return ("err", err_name(e))
+    if buf.tell() > len(data):
+        return ("err", "Other:ConsumedBeyondInput")
     try:
         v = from_py(obj)
     except Unmappable as e:
